@@ -17,6 +17,7 @@ import (
 	"github.com/massnetorg/mass-core/massutil"
 	"github.com/massnetorg/mass-core/txscript"
 	"github.com/massnetorg/mass-core/wire"
+	"github.com/syndtr/goleveldb/leveldb/storage"
 	"massnet.org/mass-wallet/config"
 	mwdb "massnet.org/mass-wallet/masswallet/db"
 	"vh/enum"
@@ -54,6 +55,9 @@ type Options struct {
 	SeedName string
 	DiskDB   bool // use the real on-disk CreateDB/OpenDB path instead of in-memory storage
 	NoAddrs  bool // do not issue any address at setup (C12)
+	// MemStorage, if set, is the goleveldb storage of the wallet database (fault injection
+	// below the ldb backend); default: a fresh in-memory storage
+	MemStorage storage.Storage
 	// HarnessDB, if set, brackets database use by the harness itself (fault enumeration must
 	// neither count nor fail the status queries the simulator issues to decide enabledness).
 	HarnessDB func(begin bool)
@@ -151,6 +155,9 @@ func New(dir string, opt Options) (*World, error) {
 		return nil, err
 	}
 	st := inst.NewMemStore()
+	if opt.MemStorage != nil {
+		st = &inst.Store{Mem: opt.MemStorage}
+	}
 	if opt.DiskDB {
 		st = &inst.Store{Dir: filepath.Join(dir, "wallet")}
 	}
